@@ -52,6 +52,29 @@ thread_local! {
     static TRACE: Cell<u64> = const { Cell::new(0xcbf2_9ce4_8422_2325) };
 }
 
+pub const MODE_ROTATE: u8 = 1;
+pub const MODE_LISTMAP: u8 = 2;
+thread_local! {
+    static MODE: Cell<u8> = const { Cell::new(0) };
+    static ROTATION: Cell<usize> = const { Cell::new(0) };
+}
+/// Further freedoms of the stubbed store that are not personality bits (they change what is compared).
+pub fn set_mode(m: u8) {
+    MODE.with(|c| c.set(m));
+    ROTATION.with(|c| c.set(0));
+}
+fn mode() -> u8 {
+    MODE.with(|c| c.get())
+}
+fn index_name(i: usize) -> &'static String {
+    static NAMES: std::sync::OnceLock<Vec<String>> = std::sync::OnceLock::new();
+    let t = NAMES.get_or_init(|| (0..4096).map(|i| i.to_string()).collect());
+    match t.get(i) {
+        Some(s) => s,
+        None => Box::leak(Box::new(i.to_string())),
+    }
+}
+
 thread_local! {
     static REENTER_GET: Cell<bool> = const { Cell::new(false) };
     static IN_NESTED: Cell<bool> = const { Cell::new(false) };
@@ -342,7 +365,19 @@ impl<const P: usize> Queryable for Sim<P> {
     fn as_object(&self) -> Option<Vec<(&String, &Self)>> {
         seam(2);
         match self {
+            Sim::Obj(o) if mode() & MODE_ROTATE != 0 && !o.is_empty() => {
+                // every enumeration starts at another member (a store with no stable iteration order:
+                // each call lists every member exactly once, which is all the trait says)
+                let start = ROTATION.with(|r| {
+                    let v = r.get();
+                    r.set(v.wrapping_add(1));
+                    v
+                }) % o.len();
+                Some(o[start..].iter().chain(o[..start].iter()).map(|(k, v)| (k, v)).collect())
+            }
             Sim::Obj(o) => Some(o.iter().map(|(k, v)| (k, v)).collect()),
+            // a list that is stored as a table keyed "0", "1", …: it answers as_array and as_object
+            Sim::Arr(a) if mode() & MODE_LISTMAP != 0 => Some(a.iter().enumerate().map(|(i, x)| (index_name(i), x)).collect()),
             _ => None,
         }
     }
